@@ -135,6 +135,9 @@ def _work_arch(prop, tier):
         except Unsupported as e:
             out['unsupported'] = str(e)
             return out
+        uns = [o for o in obs if o.info.get('unsupported')]
+        obs = [o for o in obs if not o.info.get('unsupported')]
+        out['partial_unsupported'] = ['%s: %s' % (o.func, o.info['unsupported']) for o in uns]
         recs, nq = driver.discharge_grouped(obs)
         out['queries'] = nq
         for r in recs:
@@ -597,6 +600,7 @@ def arch_level_a(prop):
         unsupported.append('archive classes: crashed: %s' % res['error'][-300:])
     elif res['unsupported']:
         unsupported.append('archive classes: %s' % res['unsupported'])
+    unsupported += res.get('partial_unsupported', [])
     for r in res['recs']:
         ok = names.setdefault(r['name'], [True, ''])
         funcs.add(r['func'])
@@ -607,3 +611,24 @@ def arch_level_a(prop):
     return {'obligations': len(names), 'discharged': sum(1 for v in names.values() if v[0]),
             'failed': [(n, v[1]) for n, v in names.items() if not v[0]], 'functions': sorted(funcs), 'ms': round(ms, 1),
             'unsupported': unsupported}
+
+
+def rounding_level_a():
+    """contracts/rounding_contracts.py: the real simple_round under contract"""
+    from contracts import rounding_contracts as RC
+    from pyvc import driver
+    obs, sha = RC.obligations()
+    uns = ['%s: %s' % (o.func, o.info['unsupported']) for o in obs if o.info.get('unsupported')]
+    obs = [o for o in obs if not o.info.get('unsupported')]
+    recs, nq = driver.discharge_grouped(obs)
+    names, funcs, ms = {}, set(), 0.0
+    for r in recs:
+        ok = names.setdefault(r['name'], [True, ''])
+        funcs.add(r['func'])
+        ms += r['ms']
+        if r['res'] != 'unsat':
+            ok[0] = False
+            ok[1] = '%s on path %s (%s)' % (r['res'], r['path'], r['reason'])
+    return {'obligations': len(names), 'discharged': sum(1 for v in names.values() if v[0]),
+            'failed': [(n, v[1]) for n, v in names.items() if not v[0]], 'functions': sorted(funcs), 'ms': round(ms, 1),
+            'unsupported': uns, 'instances': len(recs)}
